@@ -709,6 +709,26 @@ func (it *Interp) compute(fr *frame, v ssa.Value) AV {
 		return NonNil(fmt.Sprintf("make#%d", it.allocN))
 	case *ssa.Slice:
 		a := it.val(fr, x.X)
+		if a.Kind == KAddr && strings.HasPrefix(a.Key, "local#") {
+			// slice of a local array (variadic arguments): render the elements
+			var ks []string
+			for k := range it.mem {
+				if strings.HasPrefix(k, a.Key+"[") {
+					ks = append(ks, k)
+				}
+			}
+			sort.Strings(ks)
+			var es []string
+			for _, k := range ks {
+				es = append(es, it.mem[k].String())
+			}
+			return Sym("[" + strings.Join(es, ", ") + "]")
+		}
+		if a.Kind == KSym || a.Kind == KNonNil {
+			if x.Low == nil && x.High == nil {
+				return a
+			}
+		}
 		return it.lookup("slice(" + a.String() + ")")
 	case *ssa.Range:
 		return Sym("range(" + it.val(fr, x.X).String() + ")")
